@@ -12,7 +12,7 @@ cp /verif/evidence/"$prop".json /tmp/rigverif-evidence-$$.json 2>/dev/null
 RIG_ROOT=$wt VERIF_WALL_LIMIT=${VERIF_WALL_LIMIT:-900} timeout 2400 /verif/check "$prop" --tier "$tier" > /tmp/rigverif-mutant-$$.out 2>&1
 rc=$?
 git -C /repo worktree remove --force $wt
-grep -E "VIOLATION|KNOWN-FINDING|MACHINERY|OK|FAIL|clauses \[" /tmp/rigverif-mutant-$$.out | cut -c1-260 | head -${MUTANT_LINES:-8}
+grep -E "VIOLATION|KNOWN-FINDING|MACHINERY|OK|FAIL|EXTRA|clauses \[" /tmp/rigverif-mutant-$$.out | cut -c1-260 | head -${MUTANT_LINES:-8}
 rm -f /tmp/rigverif-mutant-$$.out
 # evidence written by a mutant run is not evidence of the real tree
 cp /tmp/rigverif-evidence-$$.json /verif/evidence/"$prop".json 2>/dev/null; rm -f /tmp/rigverif-evidence-$$.json
